@@ -156,7 +156,7 @@ def run(ck):
     ck.rule = ("Merge.tla: every tuple of NCols strings (length <= MaxLen over {',', '\\\\', 'a', '1'}, empty string included) is one TLC state; _merge_columns replayed on each; "
                "tables: a tuple + its colliding twins (under unescaped / half-escaped joins, found by TLC) + further tuples, through moments, MetricFrame, EG, GridSearch, ThresholdOptimizer")
     from fairlearn.utils._input_validation import _merge_columns
-    emits = [(2, 2), (1, 3)] if ck.quick else [(2, 2), (1, 3), (3, 2), (2, 3)]
+    emits = [(2, 2), (1, 3)] if ck.quick else [(2, 2), (1, 3), (3, 2)]
     allobs = []
     for (ml, nc) in emits:
         r = ck.tlc("Merge", cfg(ml, nc), f"round trip + injectivity MaxLen={ml} NCols={nc}", workers=1 if ml * nc <= 4 else 8, timeout=3000)
@@ -176,7 +176,7 @@ def run(ck):
     for nc, obs in allobs:
         tw = [o for o in obs if o["naive_twin"] or o["half_twin"]]
         rnd.shuffle(tw)
-        for o in tw[: (40 if ck.quick else 250)]:
+        for o in tw[: (40 if ck.quick else 120)]:
             ts = {tup_of(o["tuple"])}
             for key in ("naive_twin", "half_twin"):
                 for u in o[key]:
